@@ -195,6 +195,7 @@ def run(ctx, name, kind, **kw):
                     jobs.append(("sigencode_%s_canonize" % ename, canon, (r, s, n), plain(r, min(s, n - s), n)))
         S.concurrent_purity(ctx, S.codes_of(util), jobs, rng, kw["runs"])
         S.reentrant_purity(ctx, S.codes_of(util), jobs, rng, max(12, kw["runs"] // 6))
+        S.fault_purity(ctx, S.codes_of(util), jobs, rng, max(12, kw["runs"] // 6))
     elif kind == "verify":
         c = lib.BY_NAME[kw["cname"]]
         dom = lib.dom_of(c)
